@@ -2,7 +2,7 @@
     ([fx = true]) never panics, and it agrees with the grammar as it is on every input on
     which that one does not panic. *)
 From Coq Require Import NArith ZArith List Bool Lia.
-From Snel Require Import Base.Bytes Gen.Params Model.Tokenizer Model.Parser Model.Command
+From Snel Require Import Base.Bytes Gen.Params Model.Tokenizer Model.Parser Model.PlotQL Model.Command
   Proofs.ParserBasics Proofs.FuelProofs.
 Import ListNotations.
 Open Scope N_scope.
@@ -113,6 +113,105 @@ Proof.
     specialize (IHo (ws r1) k). destruct (or_expr true f (ws r1)) as [[y r2]| |k''|]; try discriminate; congruence.
 Qed.
 
+Section ExprNpG.
+Variable lf : P expr.
+Hypothesis Hlnp : nopanic lf.
+
+Lemma expr_np_g : forall f, nopanic (or_expr_g lf f) /\ nopanic (and_expr_g lf f) /\ nopanic (factor_g lf f).
+Proof.
+  induction f as [|f (IHo & IHa & IHf)].
+  - repeat split; intros s k; discriminate.
+  - assert (Hfac : nopanic (factor_g lf (S f))).
+    { intros s k. rewrite factor_g_S.
+      assert (Hpl : paren_or_leaf_g lf f s <> Panic k).
+      { unfold paren_or_leaf_g. destruct (lit 40 s) as [r1|]; [|apply Hlnp].
+        specialize (IHo (ws r1) k). destruct (or_expr_g lf f (ws r1)) as [[e r2]| |k'|]; try discriminate; try apply Hlnp; try congruence.
+        destruct (lit 41 (ws r2)); [discriminate|apply Hlnp]. }
+      destruct (ci K_NOT s) as [r1|]; auto.
+      specialize (IHf (ws r1) k). destruct (factor_g lf f (ws r1)) as [[x r2]| |k'|]; try discriminate; auto. }
+    assert (Hand : nopanic (and_expr_g lf (S f))).
+    { intros s k. rewrite and_expr_g_S. specialize (IHf s k).
+      destruct (factor_g lf f s) as [[x r0]| |k'|]; try discriminate; try congruence.
+      destruct (ci K_AND (ws r0)) as [r1|]; [|discriminate].
+      specialize (IHa (ws r1) k). destruct (and_expr_g lf f (ws r1)) as [[y r2]| |k''|]; try discriminate; congruence. }
+    repeat split; auto.
+    intros s k. rewrite or_expr_g_S. specialize (IHa s k).
+    destruct (and_expr_g lf f s) as [[x r0]| |k'|]; try discriminate; try congruence.
+    destruct (ci K_OR (ws r0)) as [r1|]; [|discriminate].
+    specialize (IHo (ws r1) k). destruct (or_expr_g lf f (ws r1)) as [[y r2]| |k''|]; try discriminate; congruence.
+Qed.
+
+End ExprNpG.
+
+(** ** the PLOT grammar never panics (its number rule has always been fallible) *)
+Lemma p_value_np : nopanic p_value.
+Proof.
+  unfold p_value. apply alt_np; [|apply alt_np; [apply number_np|]].
+  - intros s k. destruct (string_lit s) as [[x y]|]; discriminate.
+  - intros s k. destruct (p_ident s) as [[x y]|]; discriminate.
+Qed.
+#[global] Hint Resolve p_value_np : np.
+Lemma sep_many_np : forall A (p : P A), nopanic p ->
+  nopanic (fun s => many (S (length s)) (fun s1 => match comma_sep s1 with Some s2 => p s2 | None => Err end) s).
+Proof. intros A p Hp. apply (many_self_np _ (sepstep p comma_sep)), sepstep_np; auto. Qed.
+Lemma p_leaf_np : nopanic p_leaf.
+Proof.
+  unfold p_leaf, p_comparison, p_in_expr, p_value_list, p_exists_expr, p_exists_args, p_fieldp, p_identp.
+  repeat apply alt_np; auto 60 using sep_many_np with np.
+Qed.
+Lemma p_expression_np : nopanic p_expression.
+Proof. intros s k. unfold p_expression. apply (proj1 (expr_np_g p_leaf p_leaf_np _)). Qed.
+#[global] Hint Resolve p_expression_np : np.
+Lemma p_integer_np : nopanic p_integer.
+Proof.
+  intros s k. unfold p_integer. destruct (integer s) as [[[neg d] r0]|]; [|discriminate].
+  destruct neg; [destruct (_ =? 0)|destruct (_ <=? _)]; discriminate.
+Qed.
+Lemma seq_sep_np : nopanic seq_sep.
+Proof.
+  unfold seq_sep. apply alt_np; [|apply kw_np].
+  intros s k. destruct s as [|x [|y r']]; try discriminate. destruct ((x =? 45) && (y =? 62)); discriminate.
+Qed.
+#[global] Hint Resolve p_integer_np seq_sep_np : np.
+Lemma paren_field_np : nopanic paren_field. Proof. unfold paren_field, p_fieldp. auto 40 with np. Qed.
+#[global] Hint Resolve paren_field_np : np.
+Lemma metric_expr_np : nopanic metric_expr.
+Proof. unfold metric_expr, agg_func. repeat apply alt_np; auto 40 with np. Qed.
+#[global] Hint Resolve metric_expr_np : np.
+Lemma clause_before_np : nopanic clause_before_vs.
+Proof. unfold clause_before_vs, filter_clause, top_clause, top_by_target, p_fieldp. repeat apply alt_np; auto 60 with np. Qed.
+Lemma clause_after_np : nopanic clause_after_vs.
+Proof.
+  unfold clause_after_vs, breakdown_clause, ptime_clause, top_clause, top_by_target, p_field_list, p_fieldp, granularity.
+  repeat apply alt_np; auto 60 using sep_many_np with np.
+Qed.
+Lemma metric_of_events_np : nopanic metric_of_events.
+Proof.
+  unfold metric_of_events, p_events, clauses_of, p_identp.
+  apply bind_np; auto with np. intros m. apply bind_np; auto with np. intros _. apply bind_np; auto with np. intros _.
+  apply bind_np; auto with np. intros _. apply bind_np.
+  - apply bind_np; auto with np. intros h. apply bind_np; auto 40 with np.
+  - intros ev. apply bind_np; auto with np. apply many_self_np. apply bind_np; auto with np. intros _. apply clause_before_np.
+Qed.
+Lemma plot_rule_np : nopanic plot_rule.
+Proof.
+  unfold plot_rule, clauses_of.
+  apply bind_np; auto with np. intros _. apply bind_np; auto with np. intros _. apply bind_np; auto with np. intros _.
+  apply bind_np; [apply metric_of_events_np|]. intros main. apply bind_np.
+  - apply many_self_np. apply bind_np; auto with np. intros _. apply bind_np; auto with np. intros _.
+    apply bind_np; auto with np. intros _. apply metric_of_events_np.
+  - intros sides. apply bind_np.
+    + apply many_self_np. apply bind_np; auto with np. intros _. apply clause_after_np.
+    + intros after. auto 20 with np.
+Qed.
+Lemma parse_plot_cmd_np : forall s k, parse_plot_cmd s <> PPanic k.
+Proof.
+  intros s k. unfold parse_plot_cmd, parse_plot. pose proof (plot_rule_np s k) as H.
+  destruct (plot_rule s) as [[[[m sd] af] r]| |k'|]; try discriminate.
+  - destruct (forallb _ sd); [|discriminate]. destruct sd; discriminate.
+  - congruence.
+Qed.
+
 Lemma parse_expr_at_np : nopanic (parse_expr_at true).
 Proof. intros s k. unfold parse_expr_at. apply (proj1 (expr_np _)). Qed.
 
@@ -220,23 +319,30 @@ Proof.
   break_match; try discriminate; apply of_res_np, parse_query_np.
 Qed.
 
-(** Panics arise only under the QUERY / FIND / REMEMBER heads *)
-Lemma panic_only_in_query : forall fx s k, parse_command fx s = PPanic k ->
-  exists q, parse_query fx q = Panic k.
+Lemma parse_define_np : forall ts k, parse_define ts <> PPanic k.
+Proof. intros ts k. unfold parse_define. break_match; discriminate. Qed.
+
+(** Panics arise only under the QUERY / FIND / REMEMBER heads (directly or as a part of a BATCH) *)
+Lemma panic_only_in_query_with : forall batch fx s k,
+  (forall ts, batch ts = PPanic k -> exists q, parse_query fx q = Panic k) ->
+  parse_command_with batch fx s = PPanic k -> exists q, parse_query fx q = Panic k.
 Proof.
-  intros fx s k. unfold parse_command.
+  intros batch fx s k Hb. unfold parse_command_with.
   destruct (negb (tokens_in_domain _)); [discriminate|].
   destruct (negb (tokens_valid _)); [discriminate|].
   destruct (tokenize (utrim s)) as [|[w| | | | | | | | | | | |] rest]; try discriminate.
   repeat match goal with |- (if ?c then _ else _) = _ -> _ => destruct c end; try discriminate; intro H.
+  - exfalso. eapply parse_define_np; eauto.
   - exfalso. eapply parse_store_np; eauto.
   - unfold parse_remember in H. revert H. break_match; try discriminate. intro H.
     match type of H with of_res _ (parse_query fx ?q0) = _ => exists q0; destruct (parse_query fx q0) as [q| |k'|] end;
       cbn in H; try discriminate. congruence.
   - exists (utrim s). destruct (parse_query fx (utrim s)) as [q| |k'|]; cbn in H; try discriminate. congruence.
   - exfalso. eapply parse_replay_np; eauto.
+  - eauto.
   - exfalso. eapply parse_nullary_np; eauto.
   - exfalso. eapply parse_nullary_np; eauto.
+  - exfalso. eapply parse_plot_cmd_np; eauto.
   - exfalso. eapply parse_create_user_np; eauto.
   - exfalso. destruct rest as [|t r]; [eapply parse_grant_like_np; eauto|].
     destruct (word_is K_KEY t); [eapply parse_revoke_key_np|eapply parse_grant_like_np]; eauto.
@@ -244,6 +350,27 @@ Proof.
   - exfalso. eapply parse_grant_like_np; eauto.
   - exfalso. destruct rest as [|t r]; [eapply parse_show_np; eauto|].
     destruct (word_is K_PERMISSIONS t); [eapply parse_show_permissions_np|eapply parse_show_np]; eauto.
+Qed.
+
+Lemma batch_parts_panic : forall fx k parts acc u, (forall r, u = Some r -> r <> PPanic k) ->
+  batch_parts fx parts acc u = PPanic k -> exists q, parse_query fx q = Panic k.
+Proof.
+  intros fx k. induction parts as [|p r IH]; intros acc u Hu H; cbn [batch_parts] in H.
+  - destruct u as [x|]; [exfalso; eapply Hu; eauto|]. destruct acc; discriminate.
+  - destruct (utrim p); [eapply IH; eauto|].
+    destruct (parse_command_core fx p) as [c| |k'| | |um] eqn:E; try discriminate.
+    + eapply IH; eauto.
+    + inversion H; subst. unfold parse_command_core in E. eapply panic_only_in_query_with; [|exact E]. discriminate.
+    + eapply IH; [|exact H]. intros x Ex. destruct u as [y|]; inversion Ex; subst; [apply Hu; auto|discriminate].
+    + eapply IH; [|exact H]. intros x Ex. destruct u as [y|]; inversion Ex; subst; [apply Hu; auto|discriminate].
+Qed.
+
+Lemma panic_only_in_query : forall fx s k, parse_command fx s = PPanic k -> exists q, parse_query fx q = Panic k.
+Proof.
+  intros fx s k. unfold parse_command. apply panic_only_in_query_with.
+  intros ts H. unfold parse_batch in H. destruct ts as [|t0 [|[] r]]; try discriminate.
+  destruct (batch_buffer r 0 [] false) as [[buf|]|]; try discriminate.
+  eapply batch_parts_panic; [|exact H]. discriminate.
 Qed.
 
 Theorem fixed_never_panics : forall s k, parse_command true s <> PPanic k.
@@ -425,10 +552,13 @@ Lemma of_res_sim : forall A (f : A -> command) r0 r1, sim r0 r1 ->
   (exists k, of_res f r0 = PPanic k) \/ of_res f r0 = of_res f r1.
 Proof. intros A f r0 r1 [[k E]|E]; subst; [left; cbn; eauto|right; auto]. Qed.
 
-Theorem fixed_agrees : forall s, (forall k, parse_command false s <> PPanic k) ->
-  parse_command true s = parse_command false s.
+(** agreement of the two modes on one command text (every head but BATCH) and on batches *)
+Lemma agrees_with : forall batch0 batch1 s,
+  (forall ts, (forall k, batch0 ts <> PPanic k) -> batch1 ts = batch0 ts) ->
+  (forall k, parse_command_with batch0 false s <> PPanic k) ->
+  parse_command_with batch1 true s = parse_command_with batch0 false s.
 Proof.
-  intros s Hn. revert Hn. unfold parse_command.
+  intros batch0 batch1 s Hb Hn. revert Hn. unfold parse_command_with.
   destruct (negb (tokens_in_domain _)); [reflexivity|].
   destruct (negb (tokens_valid _)); [reflexivity|].
   destruct (tokenize (utrim s)) as [|t rest]; [reflexivity|].
@@ -443,4 +573,29 @@ Proof.
   - destruct (of_res_sim _ CQuery _ _ (parse_query_sim (utrim s))) as [[k E]|E].
     + exfalso. eapply Hn; eauto.
     + symmetry; exact E.
+  - apply Hb. exact Hn.
+Qed.
+
+Lemma batch_parts_agree : forall parts acc u, (forall k, batch_parts false parts acc u <> PPanic k) ->
+  batch_parts true parts acc u = batch_parts false parts acc u.
+Proof.
+  induction parts as [|p r IH]; intros acc u Hn; cbn [batch_parts] in *; [reflexivity|].
+  destruct (utrim p); [apply IH; auto|].
+  assert (E : (exists k, parse_command_core false p = PPanic k) \/ parse_command_core true p = parse_command_core false p).
+  { destruct (parse_command_core false p) as [c| |k| | |um] eqn:E0;
+      [right|right|left; eauto|right|right|right];
+      (rewrite <- E0; unfold parse_command_core; apply agrees_with;
+       [intros; reflexivity|intro k0; fold (parse_command_core false p); rewrite E0; discriminate]). }
+  destruct E as [[k E]|E].
+  - rewrite E in Hn. exfalso. eapply Hn; eauto.
+  - rewrite E. destruct (parse_command_core false p) as [c| |k| | |um]; auto.
+Qed.
+
+Theorem fixed_agrees : forall s, (forall k, parse_command false s <> PPanic k) ->
+  parse_command true s = parse_command false s.
+Proof.
+  intros s Hn. unfold parse_command in *. apply agrees_with; auto.
+  intros ts Hb. unfold parse_batch in *. destruct ts as [|t0 [|[] r]]; try reflexivity.
+  destruct (batch_buffer r 0 [] false) as [[buf|]|]; try reflexivity.
+  apply batch_parts_agree. exact Hb.
 Qed.
